@@ -43,10 +43,12 @@ def apply(fc):
     fc.contract('remaining_bits', requires=['cur_ok(data)'],
                 ensures=['forall|orig: Seq<u8>, p: int| #[trigger] at(orig, data, p) ==> r == 8 * orig.len() - p',
                          'r == 8 * data.0@.len() - data.1'])
+    fc.body_prefix('remaining_bits', 'proof { at_unfold(data); }')
     # outside Verus's subset (Result::map with closures, str methods): assumed here, discharged in K (bounded, see C13)
-    fc.contract('parse_6bit_ascii', requires=['cur_ok(input)', 'small(size as int)'], ensures=['text_post(input, size as int, r)'], external_body=True)
+    fc.contract('parse_6bit_ascii', requires=['cur_ok(input)'], ensures=['text_post(input, size as int, r)'], external_body=True)
     fc.contract('message_type', requires=['small(data@.len() as int)'], ensures=['message_type_post(data, r)'])
     fc.contract('message_type_bits', requires=['cur_ok(data)'], ensures=['message_type_bits_post(data, r)'])
+    fc.body_prefix('message_type_bits', 'proof { at_self(data); }')
     # format! in the error arm; only called from parse_6bit_ascii: K, complete over all 256 inputs
     fc.contract('sixbit_to_ascii', external_body=True)
     fc.contract('u8_to_bool', requires=['data <= 1'], ensures=['r == (data == 1)'])
